@@ -611,7 +611,7 @@ pub fn run_inputs(opts: &Opts, only: Option<Vec<Vec<u8>>>) -> Run {
                 }
                 run.stat("valid_frames_to_model", 1);
             }
-        } else if bytes.len() < 20_000 && outs.iter().all(|o| o.panic.is_none()) {
+        } else if bytes.len() < 20_000 && outs.iter().all(|o| o.panic.is_none()) && (!opts.thorough || idx % 3 == 0) {
             // ---- the model's block decoder is the faithful one (Lean `Blk.decompressBlock`, instance B): every small
             // hostile input goes through one short program too, so that model = code is compared with the error
             // CLASS (errmap.rs) and the state left behind on the structure-aware hostile frames, the directed ones,
